@@ -287,6 +287,19 @@ def run_shard(spec, ctx, acc):
         core.hyp_search(acc, odd, check, seed=core.derive(ctx["seed"], PROP, "odd"),
                         max_examples=600 if tier == "quick" else 20000, known=known)
         acc.classes["odd-clsid"] += acc.evaluations - before
+        # class/ID bytes that look like structure (sync characters, other protocols'
+        # preambles, line ends), enumerated: empty and short payloads, every mode
+        special = (0xB5, 0x62, 0x24, 0x47, 0xD3, 0x00, 0x0D, 0x0A, 0xFF)
+        for a in special:
+            for b in special:
+                for payload in (b"", bytes([b, a, 0x5A])):
+                    for mode in (0, 1, 2):
+                        case = {"kind": "build", "mode": mode, "clsid": bytes([a, b]), "route": "payload",
+                                "payload": payload, "defname": None}
+                        o = core.checked(check, case)
+                        o.classes = list(o.classes) + ["structure-like-clsid"]
+                        if core.handle(acc, o, case, known):
+                            return
         # frames whose checksum bytes look like a line terminator or a preamble
         magic = st.builds(
             lambda ck, p, target, mode: {"kind": "build", "mode": mode, "clsid": ck[1], "route": "payload", "defname": None,
